@@ -2099,3 +2099,36 @@ func splicedEverywhere(p *Prog, pkg string, fd *ast.FuncDecl) bool {
 	}
 	return ok && n > 0
 }
+
+// RawCondEdges is CondEdges on the condition as written (modulo leading negations): no
+// decomposition through helpers or temporaries. For rules about generated code, whose template
+// spells the condition in one fixed way.
+func (f *FuncCFG) RawCondEdges(match func(cond ast.Expr) bool) (trueEdges, falseEdges []Edge) {
+	for _, b := range f.G.Blocks {
+		if !b.Live || len(b.Succs) != 2 {
+			continue
+		}
+		c := condOf(b)
+		if c == nil {
+			continue
+		}
+		neg := false
+		for {
+			c = ast.Unparen(c)
+			if u, ok := c.(*ast.UnaryExpr); ok && u.Op == token.NOT {
+				neg, c = !neg, u.X
+				continue
+			}
+			break
+		}
+		if !match(c) {
+			continue
+		}
+		t, fl := Edge{b, 0}, Edge{b, 1}
+		if neg {
+			t, fl = fl, t
+		}
+		trueEdges, falseEdges = append(trueEdges, t), append(falseEdges, fl)
+	}
+	return
+}
